@@ -342,7 +342,7 @@ static int guarded_call(int kind, const char* what, double timeout_s)
         if (act != act0) { act0 = act; t_act = now_s(); }
         if (g_hostile && now_s() - t0 > 8) break; // misuse family: do not spend minutes on a wedged runtime
         if (now_s() - t0 > timeout_s && now_s() - t_act > 10.0) break;
-        if (now_s() - t0 > 4 * timeout_s) break;
+        if (now_s() - t0 > 2 * timeout_s) break;
     }
     // quiescence witness: who is alive, who sleeps where, nothing moved for >= 10 s
     char w[300];
@@ -362,6 +362,7 @@ static struct { unsigned long cases, acqs, frames_cam, frames_sto, frames_client
                 faults_sto, instants_hit[END_N], instants_missed[END_N], client_pat[CL_N], late_join, c08_programs, c08_calls, reconfig_switch,
                 writer_asleep_at_fault, dead_filter_aborts, avg_windows, nondiv8, shape_changes, holds_across_end, real_dev_acqs, zero_frames; } C;
 static vset g_sigs;
+static int g_prev_aborted; // the previous acquisition on this runtime ended by abort or fault
 
 static long cam_frames_of_epoch(int dev, uint64_t epoch, struct rtm_frame** first)
 {
@@ -431,7 +432,7 @@ static void check_stream(int dev, const struct stream_cfg* s, const struct acq_r
         long full = nc / s->avg;
         ++C.avg_acqs;
         if (!prefix_ok && (ns < full || ns > full + 1))
-            violation("C10,C04", "averaging-frame-count", "%s stream %d: %ld camera frames, window %u: storage got %ld frames, expected %ld (+1 trailing at most)",
+            violation(g_prev_aborted ? "C10,C04,C07" : "C10,C04", "averaging-frame-count", "%s stream %d: %ld camera frames, window %u: storage got %ld frames, expected %ld (+1 trailing at most)",
                       ctx, dev, nc, s->avg, ns, full);
         if (g_loud) { fprintf(stderr, "storage ids:"); for (long j = 0; j < ns; ++j) fprintf(stderr, " %llu", (unsigned long long)sf[j].frame_id); fprintf(stderr, "\n"); }
         long ncheck = ns < full ? ns : full;
@@ -460,7 +461,7 @@ static void check_stream(int dev, const struct stream_cfg* s, const struct acq_r
     } else {
         // ---- C04 / C07 prefix ------------------------------------------------------------------------
         if (!prefix_ok && ns != nc)
-            violation("C04", ns < nc ? "frames-lost" : "frames-extra", "%s stream %d: camera delivered %ld frames, storage received %ld", ctx, dev, nc, ns);
+            violation(g_prev_aborted ? "C04,C07" : "C04", ns < nc ? "frames-lost" : "frames-extra", "%s stream %d: camera delivered %ld frames, storage received %ld", ctx, dev, nc, ns);
         if (prefix_ok && ns > nc)
             violation("C07,C09", "frames-extra", "%s stream %d: camera delivered %ld frames, storage received %ld", ctx, dev, nc, ns);
         long n = ns < nc ? ns : nc;
@@ -469,7 +470,7 @@ static void check_stream(int dev, const struct stream_cfg* s, const struct acq_r
             if (b->frame_id != (uint64_t)i || b->hw_id != a->hw_id || b->w != a->w || b->h != a->h || b->type != a->type || b->pixhash != a->pixhash) {
                 // classify: stale frame of an earlier acquisition?
                 int stale = (b->ts_hw >> 32) != r->cam_epoch[dev];
-                violation(prefix_ok ? "C07,C09" : "C04", stale ? "stale-frame-in-storage" : "frame-mismatch",
+                violation(prefix_ok ? "C07,C09" : (g_prev_aborted ? "C04,C07,C09" : "C04,C09"), stale ? "stale-frame-in-storage" : "frame-mismatch",
                           "%s stream %d: storage frame %ld has id %llu hw %llu %ux%u (epoch %llu), camera frame %ld is hw %llu %ux%u (epoch %llu)%s", ctx, dev, i,
                           (unsigned long long)b->frame_id, (unsigned long long)b->hw_id, b->w, b->h, (unsigned long long)(b->ts_hw >> 32), i,
                           (unsigned long long)a->hw_id, a->w, a->h, (unsigned long long)r->cam_epoch[dev], b->pixhash != a->pixhash ? " pixels differ" : "");
@@ -660,8 +661,8 @@ static void run_acquisition(const struct acq_cfg* a, vrng* g, int acq_index, str
     vbuf_printf(&g_log, "%s%s ", k_end[a->end], hit ? "" : "(instant not reached)");
     ++g_api_calls;
     for (int i = 0; i < 2; ++i) g_feed_triggers[i] = a->s[i].on && a->s[i].trig;
-    if (by_abort) { ++C.aborts; guarded_call(1, "acquire_abort", 30); }
-    else { ++C.stops; guarded_call(0, "acquire_stop", a->s[0].N > 400 ? 90 : 45); }
+    if (by_abort) { ++C.aborts; guarded_call(1, "acquire_abort", 20); }
+    else { ++C.stops; guarded_call(0, "acquire_stop", 25); }
     // ---- post-conditions ------------------------------------------------------------------------------------------
     if (atomic_load(&g_live_workers) != 0)
         violation("C07,C08", "workers-alive-after-stop", "%s: %d worker thread(s) still alive after %s returned", ctx, atomic_load(&g_live_workers), by_abort ? "abort" : "stop");
@@ -763,7 +764,7 @@ static void run_case(const char* mode, uint64_t seed, unsigned long icase, int v
     M->prf_key = vrng_u64(&g);
     int two = vrng_chance(&g, 1, 4);
     int is10 = !strcmp(mode, "c10"), is09 = !strcmp(mode, "c09"), is07 = !strcmp(mode, "c07"), is06 = !strcmp(mode, "c06"), is05 = !strcmp(mode, "c05");
-    int may_avg = is10 || (!is09 && !is07 && vrng_chance(&g, 1, 4));
+    int may_avg = is10 || (!is09 && vrng_chance(&g, 1, is07 ? 2 : 4));
     // base shapes decide the ring: 1.2 .. 20 frames (of the largest frame of this case)
     struct acq_cfg base; memset(&base, 0, sizeof base);
     gen_stream(&g, &base.s[0], mode, is10);
@@ -788,6 +789,7 @@ static void run_case(const char* mode, uint64_t seed, unsigned long icase, int v
     g_cl_mapped = 0; g_cl_errors = 0; g_acq_label = 0; g_ev_checked = M->nevents; g_ninst = 0; g_cl_first_map_label = -1;
     reset_logs();
     int nacq = (int)vrng_range(&g, 2, is06 ? 8 : 5);
+    g_prev_aborted = 0;
     int client_from = is06 && vrng_chance(&g, 1, 3) ? (int)vrng_range(&g, 1, nacq - 1) : 0; // late join
     int client_kind = (int)vrng_range(&g, 1, CL_N - 1);
     int have_client = is06 || vrng_chance(&g, 1, 2);
@@ -822,7 +824,8 @@ static void run_case(const char* mode, uint64_t seed, unsigned long icase, int v
             size_t per = frame_bytes(cs_->w, cs_->h, cs_->avg > 1 ? SampleType_f32 : cs_->type);
             if (cs_->N * per > g_cap_sink[client_stream] / 2) a.end = END_WAIT_DONE_THEN_STOP;
         }
-        if (is07 || (is06 && vrng_chance(&g, 1, 3))) {
+        // C07: aborted acquisitions alternate with ordinary ones, which must then be complete and clean
+        if ((is07 && (q % 2 == 0 || vrng_chance(&g, 1, 4))) || (is06 && vrng_chance(&g, 1, 3))) {
             a.end = (int)vrng_range(&g, END_ABORT_RANDOM, END_ABORT_AFTER_WRAP);
             if (a.end == END_ABORT_WAIT_TRIGGER) { a.s[0].trig = 1; a.s[0].avg = 0; }
             if (a.end == END_ABORT_CLIENT_HOLDS && a.client == CL_NONE) a.client = CL_HOLD;
@@ -870,6 +873,7 @@ static void run_case(const char* mode, uint64_t seed, unsigned long icase, int v
         vbuf_printf(&g_log, "client=%s} ", k_client[a.client]);
         struct acq_result r;
         run_acquisition(&a, &g, q, &r, 1);
+        g_prev_aborted = r.ended_by_abort || a.fault;
         reset_logs();
     }
     ++g_api_calls;
@@ -911,6 +915,10 @@ static void run_program(uint64_t seed, unsigned long icase, int verbose, int hos
             a.s[0].trig = vrng_chance(&g, 1, 5);
             if (vrng_chance(&g, 1, 3)) { gen_stream(&g, &a.s[1], "c08", 1); a.s[1].N = vrng_range(&g, 1, 80); }
             if (vrng_chance(&g, 1, 4)) { a.s[0].real_devices = 1; ++C.reconfig_switch; }
+            else if (vrng_chance(&g, 1, 3)) { // device faults inside programs: the life cycle must stay disciplined
+                if (vrng_chance(&g, 1, 2)) { a.s[0].cam.fail_at_call = (long)vrng_below(&g, 25); ++C.faults_cam; }
+                else { a.s[0].sto.fail_at_frame = (long)vrng_below(&g, 25); a.s[0].sto.fail_state = DeviceState_AwaitingConfiguration; ++C.faults_sto; }
+            }
             if (vrng_chance(&g, 1, 6)) { a.s[0].avg = (uint32_t)vrng_range(&g, 2, 4); if (a.s[0].type == SampleType_f32) a.s[0].type = SampleType_u8; }
             if (frame_bytes(a.s[0].w, a.s[0].h, SampleType_f32) + 64 > g_cap_sink[0] || frame_bytes(a.s[0].w, a.s[0].h, a.s[0].type) + 64 > g_cap_filter[0]) { a.s[0].w = 8; a.s[0].h = 8; }
             if (a.s[1].on && frame_bytes(a.s[1].w, a.s[1].h, a.s[1].type) + 64 > g_cap_sink[1]) { a.s[1].w = 8; a.s[1].h = 8; }
@@ -938,12 +946,12 @@ static void run_program(uint64_t seed, unsigned long icase, int verbose, int hos
                     for (int i = 0; i < 2; ++i) if (atomic_load(&M->cam[i].waiting_trigger)) acquire_execute_trigger(g_rt, (uint32_t)i);
                     nap_us(200);
                 }
-                if (atomic_load(&g_live_workers) > 0) { vbuf_printf(&g_log, "(abort instead) "); guarded_call(1, "acquire_abort", 30); running = 0; continue; }
+                if (atomic_load(&g_live_workers) > 0) { vbuf_printf(&g_log, "(abort instead) "); guarded_call(1, "acquire_abort", 20); running = 0; continue; }
             }
-            guarded_call(0, "acquire_stop", 45); running = 0;
+            guarded_call(0, "acquire_stop", 25); running = 0;
             if (acquire_get_state(g_rt) != DeviceState_Armed) violation("C08,C07", "not-armed-after-stop", "program: state %d after stop", (int)acquire_get_state(g_rt));
         } else if (op < 62) {
-            code = 4; vbuf_printf(&g_log, "abort "); ++g_api_calls; guarded_call(1, "acquire_abort", 30); running = 0;
+            code = 4; vbuf_printf(&g_log, "abort "); ++g_api_calls; guarded_call(1, "acquire_abort", 20); running = 0;
             if (configured && acquire_get_state(g_rt) != DeviceState_Armed) violation("C08,C07", "not-armed-after-stop", "program: state %d after abort", (int)acquire_get_state(g_rt));
         } else if (op < 72) {
             code = 5; vbuf_printf(&g_log, "trigger "); if (!configured) continue; ++g_api_calls; acquire_execute_trigger(g_rt, 0);
